@@ -53,6 +53,7 @@ class World:
         self.seq = itertools.count()
         self.connectors = []
         self.record_events = True
+        self.step_no = 0
 
     # ---- time -------------------------------------------------------------------------------------------------------
     def time_ns(self):
@@ -108,6 +109,7 @@ class World:
 
     def do(self, act):
         kind, x = act
+        self.step_no += 1
         self.trace.append((kind, x.name if isinstance(x, Task) else x.id))
         if kind == 'est':
             x.established = True
@@ -397,7 +399,7 @@ class Socket:
             return
         parts = [bytes(p) for p in parts]
         if self.type == PUB:
-            w.emit('pub', self.owner, self.addr, parts)
+            w.emit('pub', self.owner, self.addr, parts, getattr(w.cur, 'inc', 0), w.step_no)
             for l in self.out_links:
                 if l.dead or not l.established or l.dst.closed or l.draining:
                     continue
@@ -414,7 +416,7 @@ class Socket:
                 raise Again()
             if len(l.queue) >= self.opts.get(SNDHWM, 1000):
                 raise Again()
-            w.emit('req', self.owner, self.addr, parts)
+            w.emit('req', self.owner, self.addr, parts, getattr(w.cur, 'inc', 0), w.step_no)
             l.queue.append(parts)
         else:
             raise ZMQError('send on a receive-only socket')
